@@ -749,6 +749,19 @@ class Interp:
 
     def index_value(self, st, v, idx):
         il = lin_of(st, idx)
+        if not il.is_const():
+            one = st.lin_set(il)
+            if one.is_single():
+                il = Lin.const(one.single())
+        if isinstance(v, VSlice) and isinstance(v.buf, tuple) and v.buf and v.buf[0] == "cbytes":
+            if il.is_const() and v.start.is_const() and 0 <= v.start.c + il.c < len(v.buf[1]):
+                return mk_const(v.buf[1][v.start.c + il.c], 8, False)
+            sa = il.single_atom()
+            vals = st.lin_set(il)
+            if sa and abs(sa[1]) == 1 and vals.size() <= 256:
+                a, k, c = sa
+                raise NeedSplit(a, [IntSet.of((x - c) * k) for x in vals.values()])
+            raise Unanalysable("index %r of a constant byte string" % (idx,))
         if isinstance(v, VSlice):
             return VInt(8, False, lin=Lin.atom(("byte", v.buf, (v.start + il).key())))
         if isinstance(v, VSeq):
@@ -756,7 +769,20 @@ class Interp:
                 return VInt(8, False, lin=Lin.atom(("old", il.key(), 0, 255)))
             return VInt(8, False, lin=Lin.atom(("byte", ("seq", v.term), il.key())))
         if isinstance(v, VList) and il.is_const():
+            if not 0 <= il.c < len(v.items):
+                raise Unanalysable("constant index %d outside a %d-element list (bounds check missing?)" % (il.c, len(v.items)))
             return v.items[il.c]
+        const_table = (isinstance(v, VList) and len(v.items) <= 256) or \
+            (isinstance(v, VSlice) and isinstance(v.buf, tuple) and v.buf and v.buf[0] == "cbytes" and v.len.is_const() and v.len.c <= 256)
+        if const_table:
+            # lookup table indexed by a decoded value: one path per index value
+            sa = il.single_atom()
+            vals = st.lin_set(il)
+            if sa and abs(sa[1]) == 1 and vals.size() <= 256:
+                a, k, c = sa
+                raise NeedSplit(a, [IntSet.of((x - c) * k) for x in vals.values()])
+        if isinstance(v, VSlice) and isinstance(v.buf, tuple) and v.buf and v.buf[0] == "cbytes" and il.is_const() and v.start.is_const():
+            return mk_const(v.buf[1][v.start.c + il.c], 8, False)
         raise Unanalysable("index %r of %r" % (idx, v))
 
     def read_ref(self, st, r):
